@@ -44,6 +44,9 @@ TARGETS = [
     ('compare_ci', 'int (const char *, size_t, const char *, size_t, size_t) noexcept', 'compare_ci_5'),
     ('find_ci', 'const char *(const char *, size_t, char)'),
     ('find_ci', 'const char *(const char *, size_t, const char *, size_t)', 'find_ci_sub'),
+    ('utf8_measure_from_utf32', 'size_t (const char32_t *, size_t)'),
+    ('utf16_measure_from_utf32', 'size_t (const char32_t *, size_t)'),
+    ('utf8_measure_from_latin_1', 'size_t (const char *, size_t)'),
 ]
 # a translated function that returns a pointer returns it into the array of this parameter
 RET_BASE_PARAM = 0
@@ -568,9 +571,14 @@ class Translator:
                 raise Unsupported('loop in a function translated without fuel')
             if k == 'WhileStmt' and len(inner) != 2:
                 raise Unsupported('while with a condition variable')
-            if k == 'ForStmt' and (len(inner) != 5 or any(x.get('kind') for x in inner[:4])):
-                raise Unsupported('for loop other than for (;;)')
-            cond_node, body = (inner[0], inner[1]) if k == 'WhileStmt' else (None, inner[-1])
+            if k == 'ForStmt' and (len(inner) != 5 or inner[0].get('kind') or inner[1].get('kind')):
+                raise Unsupported('for loop with an init statement or a condition variable')
+            if k == 'WhileStmt':
+                cond_node, body = inner[0], inner[1]
+            else:
+                # for (; cond; inc) body  ==  while (cond) { body; inc; }   (no `continue` is supported anyway)
+                cond_node = inner[2] if inner[2].get('kind') else None
+                body = inner[4] if not inner[3].get('kind') else {'kind': 'CompoundStmt', 'inner': [inner[4], inner[3]]}
             self.loop_count += 1
             lname = 'src_%s_loop%d' % (self.cur_name, self.loop_count)
             ids = [i for i in env if not isinstance(i, tuple)]
@@ -649,11 +657,25 @@ class Translator:
             vid = vs.pop()
             if vid not in env:
                 raise Unsupported('update of a non-local')
-            val = self.update_value(s, vid, env)
+            pend = []
+            if n_is_assign(s):
+                # x op= e where e may contain y++ / y-- (y other than x, occurring once)
+                self.pending = []
+                try:
+                    val = self.update_value(s, vid, env)
+                    pend = self.pending
+                finally:
+                    self.pending = None
+                for pv, _ in pend:
+                    if pv == vid or self.count_refs(s, pv) != 1:
+                        raise Unsupported('a variable incremented inside an expression occurs elsewhere in it')
+            else:
+                val = self.update_value(s, vid, env)
             env = dict(env)
-            name = self.fresh(env[vid].rstrip("0123456789").rstrip('_'))
+            name = self.fresh(self.var_names.get(vid) or env[vid].rstrip("0123456789").rstrip('_'))
             env[vid] = name
-            return 'let %s := %s in\n  %s' % (name, val, self.stmts(rest, env))
+            lets, env = self.apply_pending(pend, env)
+            return 'let %s := %s in %s\n  %s' % (name, val, lets, self.stmts(rest, env))
         raise Unsupported('statement %s' % k)
 
     def assign_value(self, s, env):
